@@ -198,12 +198,15 @@ func (x *Exec) pureCall(st *State, fn *ssa.Function, sig *types.Signature, args 
 	var as, sorts []string
 	det := true
 	for _, a := range args {
-		if len(a.L) != 1 || len(leavesOf(a.T)) != 1 {
+		ls := leavesOf(a.T)
+		if len(ls) != len(a.L) || isSlice(a.T) {
 			det = false
 			break
 		}
-		as = append(as, a.L[0])
-		sorts = append(sorts, leavesOf(a.T)[0].Sort)
+		for i, l := range ls {
+			as = append(as, a.L[i])
+			sorts = append(sorts, l.Sort)
+		}
 	}
 	if !det || len(args) == 0 {
 		x.bumpAlloc(st)
@@ -213,8 +216,18 @@ func (x *Exec) pureCall(st *State, fn *ssa.Function, sig *types.Signature, args 
 	for i, t := range resultTypes(sig) {
 		ls := leavesOf(t)
 		if len(ls) != 1 {
-			x.bumpAlloc(st)
-			rs = append(rs, x.freshVal(st, "r."+fn.Name(), t))
+			if isSlice(t) || len(ls) == 0 {
+				x.bumpAlloc(st)
+				rs = append(rs, x.freshVal(st, "r."+fn.Name(), t))
+				continue
+			}
+			v := Val{T: t, L: make([]string, len(ls))}
+			for k, l := range ls {
+				name := fmt.Sprintf("ext.%s.%d.%d", sanitize(fn.String()), i, k)
+				x.smt.DeclareFun(name, sorts, l.Sort)
+				v.L[k] = app(name, as...)
+			}
+			rs = append(rs, v)
 			continue
 		}
 		name := fmt.Sprintf("ext.%s.%d", sanitize(fn.String()), i)
@@ -480,6 +493,15 @@ func (x *Exec) applyContract(fr *Frame, st *State, ctr *Contract, sig *types.Sig
 	}
 	site := x.srcText(instr)
 	short := shortKey(ctr.Key)
+	// implicit preconditions of in-repo functions (see verifyFunction)
+	if ctr.Kind == "func" && x.safety {
+		for i, a := range args {
+			for _, g := range x.implicitRequires(st, sig, i, len(args), a) {
+				name := x.siteName(fmt.Sprintf("%s/call.%s.implicit.arg%d@%s", x.prog.relName(x.topFn), short, i, site))
+				x.oblige(st, "nil", name, x.safetyTag, instr.Pos(), g)
+			}
+		}
+	}
 	// preconditions
 	for _, c := range ctr.Clauses {
 		if c.Kind != "requires" || (c.Spawn && !isGo) {
@@ -595,6 +617,31 @@ func (x *Exec) havocTarget(st, old *State, tgt string, pkg *types.Package, env m
 		}
 		if !hit {
 			x.pendingHavoc(st, reg)
+		}
+		return
+	case strings.HasPrefix(tgt, "pointees(") && strings.HasSuffix(tgt, ")"):
+		// pointees(xs): the objects pointed to by the (statically known) elements of a []interface{} argument
+		e, err := parser.ParseExpr(ghostRe.ReplaceAllString(tgt[9:len(tgt)-1], "ghost__$1"))
+		if err != nil {
+			x.unsupported("assigns target %q: %v", tgt, err)
+			return
+		}
+		c := &specCtx{x: x, pkg: pkg, env: env, st: old, old: old}
+		v := c.expr(e, nil)
+		if !isSlice(v.T) {
+			x.unsupported("pointees(%s): not a slice", tgt)
+			return
+		}
+		prefix := "arr.iface@" + v.sRef() + "@"
+		found := false
+		for k, sv := range x.static {
+			if strings.HasPrefix(k, prefix) && sv.Dyn != nil {
+				x.havocReachable(st, *sv.Dyn)
+				found = true
+			}
+		}
+		if !found {
+			x.warn("pointees(%s): no statically known elements; nothing havocked", tgt)
 		}
 		return
 	case strings.HasPrefix(tgt, "contents(") && strings.HasSuffix(tgt, ")"):
@@ -850,6 +897,9 @@ func (x *Exec) applyGhostSet(st, old *State, c *Clause, pkg *types.Package, env 
 	v := sc.node(c.Expr)
 	if v.Const != nil {
 		v = sc.coerce(v, cur.T)
+	}
+	if len(v.L) == 1 && v.L[0] == "nil" {
+		v = zeroVal(cur.T)
 	}
 	if len(v.L) != len(cur.L) {
 		x.unsupported("ghostset %s: value shape mismatch", g)
